@@ -303,6 +303,70 @@ def field_products(mon, spec):
         mon.bump('field_product_rows')
 
 
+def decode_through_steps(mon, spec):
+    """the decode a real step performs: the same word is executed twice on the SAME processor object, from states that
+    differ in the carry flag (and registers); the opcode object the second step executed must carry the operands the
+    encoding gives under the second state - a decode result remembered from the first step would not"""
+    from vf import lockstep
+    from vf.ref.spec import Ctx
+    rng = mon.rng
+    kind = spec['set']
+    table = mon.tables[kind]
+    rows = [r for r in table.rows if r.kind == 'INSTR']
+    scen = mon.scen
+    ctxkey = [('v7-pmsa-r', 'off'), ('v6-pmsa-sec', 'off'), ('v7-vmsa-virt', 'off')][spec['shard'] % 3]
+    ctx = mon.ctx(ctxkey)
+    for i in range(spec['n']):
+        row = rows[rng.randrange(len(rows))]
+        w = lockstep.gen_word(table, row, rng, tries=6)
+        if w is None:
+            continue
+        itpos = 'out' if kind == 'arm' else rng.choice(['out', 'last'])
+        c0 = rng.randrange(2)
+        mode = rng.choice(ctx.legal_modes(0))
+        scen.prepare(ctx, rng, kind, w, mode=mode, itpos=itpos, nzcv=(rng.getrandbits(4) & 0b1101) | (c0 << 1))
+        scen.step(ctx.cpu)
+        desc = scen.prepare(ctx, rng, kind, w, mode=mode, itpos=itpos, nzcv=(rng.getrandbits(4) & 0b1101) | ((1 - c0) << 1))
+        cpu = ctx.cpu
+        cpu.executed_opcode = None
+        rctx = Ctx(C=1 - c0, in_it=itpos != 'out', last_it=itpos == 'last', arch=ctx.cfg['arch_version'], iset='arm' if kind == 'arm' else 'thumb')
+        rk, rrow, ops = table.decode(w, rctx)
+        eo_f, obj_f = mon.emu_decode(cpu, kind, w)           # what a direct decode says in this very state
+        k_, sig = scen.step(cpu)
+        obj = cpu.executed_opcode
+        mon.res['evaluations'] += 1
+        mon.bump('words_decoded_through_two_steps')
+        if rk != 'INSTR' or obj is None or k_ == 'host':
+            continue
+        rname = rrow.name
+        word = ('%#06x' if kind == 't16' else '%#010x') % w
+        rp = dict(kind=kind, word=word, itpos=itpos, ctx=list(desc['ctx']), cpsr=desc['cpsr'], first_step_carry=c0)
+        eo = 'INSTR:' + mon.cmap.get(type(obj).__name__, type(obj).__name__)
+        if eo != 'INSTR:' + rname:
+            continue            # class selection is judged by the product enumeration
+        got = {k2: mon.DC.norm(v) for k2, v in vars(obj).items() if k2 != 'instruction'}
+        direct = {k2: mon.DC.norm(v) for k2, v in vars(obj_f).items() if k2 != 'instruction'} if obj_f is not None else None
+        bad = None
+        if direct is not None and type(obj_f) is type(obj) and direct != got:
+            bad = sorted(k2 for k2 in got if got[k2] != direct.get(k2))[0]
+            exp = direct[bad] if bad in direct else None
+        else:
+            # same as the direct decode: any disagreement with the encoding is then the ordinary operand check's business
+            # (product / rows / fields shards, known findings keyed there); only a difference that the direct decode does
+            # not share is reported here
+            for k2 in set(got) & set(ops):
+                if ops[k2] is not None and got[k2] != ops[k2] and (direct is None or direct.get(k2) == ops[k2]):
+                    bad, exp = k2, ops[k2]
+                    break
+        if bad is not None:
+            mon.report('%s|operand-after-re-execution|%s|%s' % (mon.pid, rname, bad),
+                       '%s (%s) executed twice on one processor, C = %d then %d: the second step executed operand %s = %r, a direct '
+                       'decode in the second state / the encoding give %r' % (word, rname, c0, 1 - c0, bad, got[bad], exp), rp)
+        else:
+            mon.bump('re_executed_operand_sets_compared')
+            mon.res['nontrivial'].add('%s|%s|steps' % (kind, rname))
+
+
 def run_shard_common(pid, spec, kinds):
     mon = Mon(pid, spec)
     k = spec['kind']
@@ -331,6 +395,8 @@ def run_shard_common(pid, spec, kinds):
                            check_state=(i % 16 == 0), prime=(i % 3 == 0))
     elif k == 'fields':
         field_products(mon, spec)
+    elif k == 'steps':
+        decode_through_steps(mon, spec)
     elif k == 'rows':
         # words built from the reference rows with the lock-step generator (register pools, structured register lists,
         # corner immediates, should-be bits honoured) and words one fixed bit away from a word of another row
